@@ -487,7 +487,54 @@ def run_seq_case(case, res):
   res.w('rule_follows_registration_changes')
 
 
+def run_twin_case(case, res):
+  """Two registered classes of one module, each with a registered method of the same name, one of them denylisting
+  `b`: a parameter bound on one class's method is never injected into the other's."""
+  _, order, scope, path = case
+  harness.hard_reset()
+  res.case(tuple(case), True)
+  ns = {'REC': REC, 'gin': gin}
+  exec('class Reader:\n  def __init__(self):\n    pass\n'  # pylint: disable=exec-used
+       '  def open(self, a="da", b="db"):\n    REC.append(("Reader.open", gin.current_scope_str(), dict(a=a, b=b)))\n'
+       'class Writer:\n  def __init__(self):\n    pass\n'
+       '  def open(self, a="da", b="db", mode="dm"):\n    REC.append(("Writer.open", gin.current_scope_str(), dict(a=a, b=b, mode=mode)))\n', ns)
+  R, W = ns['Reader'], ns['Writer']
+  for c in (R, W):
+    c.__module__ = 'c11tw'
+    c.open.__module__ = 'c11tw'
+    c.open.__qualname__ = c.__name__ + '.open'
+  for c in ((R, W) if order == 'reader_first' else (W, R)):
+    gin.register(c.open, denylist=['b'] if c is R else None)     # (the method, then its class: the class renames it)
+    gin.register(c)
+  try:
+    attempt(path, scope, 'c11tw.Writer.open', 'b', 'WB')
+    attempt(path if not path.startswith('hook') else 'str', scope, 'c11tw.Writer.open', 'mode', 'WM') if not gin.config_is_locked() else None
+  except Exception as e:  # pylint: disable=broad-except
+    if path.endswith('4'):
+      return
+    res.violation('valid_binding_rejected', 'case %r: binding Writer.open.b raised %r' % (case, e), case)
+    return
+  try:
+    attempt(path if not path.startswith('hook') else 'str', scope, 'c11tw.Reader.open', 'b', 'RB')
+    res.violation('invalid_binding_accepted:denylisted', 'case %r: Reader.open.b is denylisted but was accepted' % (case,), case)
+    return
+  except Exception:  # pylint: disable=broad-except
+    pass
+  del REC[:]
+  with gin.config_scope(scope or None):
+    gin.get_configurable(R)().open()
+    gin.get_configurable(W)().open()
+  got = {r[0]: r[2] for r in REC}
+  if got.get('Reader.open') != {'a': 'da', 'b': 'db'} or got.get('Writer.open', {}).get('b') != 'WB':
+    res.violation('non_configurable_parameter_injected', 'case %r: same-named methods of two classes: the calls received %r' %
+                  (case, got), case)
+  else:
+    res.w('same_named_methods_keep_their_own_bindings')
+
+
 def gen(tier):
+  for order, scope, path in itertools.product(('reader_first', 'writer_first'), SCOPES, ['str', 'tuple', 'text', 'block', 'hook']):
+    yield ['twin', order, scope, path]
   for kind, scope, path in itertools.product(SEQ_KINDS, SCOPES, PATHS):
     if not path.endswith('4'):
       yield ['seq', kind, scope, path]
@@ -510,7 +557,7 @@ def run_shard(i, tier):
   for n, c in enumerate(gen(tier)):
     if n % NSH != i:
       continue
-    {'dyn': run_dyn_case, 'seq': run_seq_case}.get(c[0], run_case)(c, res)
+    {'dyn': run_dyn_case, 'seq': run_seq_case, 'twin': run_twin_case}.get(c[0], run_case)(c, res)
     if n % 701 == i:
       res.sample({'case': c})
   harness.hard_reset()
@@ -519,6 +566,6 @@ def run_shard(i, tier):
 
 def replay(case):
   res = core.Result()
-  {'dyn': run_dyn_case, 'seq': run_seq_case}.get(case[0], run_case)(case, res)
+  {'dyn': run_dyn_case, 'seq': run_seq_case, 'twin': run_twin_case}.get(case[0], run_case)(case, res)
   harness.hard_reset()
   return res
